@@ -32,6 +32,9 @@ type Block struct {
 	NLit     int   // literal tokens (stored bytes are not tokens)
 	NMatch   int   // length/distance tokens
 	Empty    bool  // a stored block with LEN == 0
+	LitLens  []uint8 // dynamic blocks: the declared literal/length code lengths
+	DistLens []uint8 // dynamic blocks: the declared distance code lengths
+	HdrBits  int64   // dynamic blocks: bits from BFINAL up to the first token
 }
 
 // SyncPoint is recorded for every completed non-final empty stored block.
@@ -244,6 +247,8 @@ type decoder struct {
 	out      []byte
 	item     int64 // start of the item being read
 	boundary int64 // end of the last completed block
+	lastLit  []uint8
+	lastDist []uint8
 }
 
 func (d *decoder) more() bool {
@@ -303,6 +308,7 @@ func (d *decoder) run() {
 		case 2:
 			var lt, dt *tree
 			if lt, dt, ok = d.dynamicHeader(); ok {
+				b.LitLens, b.DistLens, b.HdrBits = d.lastLit, d.lastDist, d.r.pos-b.StartBit
 				ok = d.huffman(&b, lt, dt)
 			}
 		default:
@@ -424,6 +430,7 @@ func (d *decoder) dynamicHeader() (lt, dt *tree, ok bool) {
 			i++
 		}
 	}
+	d.lastLit, d.lastDist = append([]uint8{}, lens[:nlit]...), append([]uint8{}, lens[nlit:]...)
 	lt, over1 := build(lens[:nlit])
 	dt, over2 := build(lens[nlit:])
 	if over1 || over2 {
